@@ -21,9 +21,19 @@ def main():
     from pbt.checks import c06, c02
     from pbt.common.core import Violation
 
+    excluded = [0]
+
     def test_one_input(data):
         text = data.decode('utf-8', 'replace')
         if len(text) > 1500 or any(len(ln) > 400 for ln in text.split('\n')):
+            return
+        if '\\' * 9 in text:
+            # outside the property's quantifier (backslash runs <= 8): an unterminated string literal that holds a long backslash run
+            # makes the string regex backtrack exponentially (DESIGN section 7); libFuzzer would stop the campaign at its first -timeout
+            excluded[0] += 1
+            if excluded[0] % 200 == 1:
+                with open(out_path + '.excluded', 'w', encoding='utf-8') as fh:
+                    fh.write(str(excluded[0]))
             return
         try:
             c06.check_any_text(text, 1, 'soup')
